@@ -258,6 +258,13 @@ def write_replay(prop, tag, recs, note=""):
     return os.path.relpath(p, VERIF)
 
 
+def lookup_known(prop, cls):
+    for k in load_known().get("findings", []):
+        if (prop in k["properties"] or "*" in k["properties"]) and re.search(k["class_re"], cls):
+            return k
+    return None
+
+
 def shrink_key(rec):
     return (len(rec["case"]), rec["case"])
 
